@@ -181,3 +181,26 @@ CHECKS["C12"] = dict(
     technique="property-based testing (rapid) + native go fuzzing; round-trip and totality oracles",
     design_ref="DESIGN.md section 4, C12",
 )
+
+CHECKS["C17"] = dict(
+    pkg="c17", level="fault_enumeration",
+    props=[dict(name="TestPropRoundTrip", quick=60000, thorough=16 * 300000, shards_quick=4, shards_thorough=16, timeout_thorough=7200),
+           dict(name="TestPropCorruptionDetected", quick=480, thorough=16 * 3000, shards_quick=12, shards_thorough=16, timeout_thorough=7200),
+           dict(name="TestEnumHeaderOnly", rapid=False, quick=1, thorough=1, shards_quick=7, shards_thorough=7, timeout_thorough=7200)],
+    rule="round trip: any sequence number x documented subject forms (blank, p.<id>, p.<id>.<parent>, phr, ack, exactly 16 "
+         "bytes) or arbitrary NUL-free subjects <= 16 bytes x 0-8 points (float32-representable or arbitrary values, any "
+         "int64-ns time, int32 tombstones, data); SerialDecode+PbDecodeSerialPoints must give everything back (value as "
+         "float32). Corruption: per generated packet on a documented subject every single-bit error, all (<= 22 bytes) or "
+         "2000 sampled two-bit errors, and bursts of length 3..16 at every start position with both end bits flipped and "
+         "all (<= 22 bytes) or 8 sampled interior patterns; plus complete enumeration of header-only packets (7 subjects x "
+         "sequence numbers). Bit order = least significant bit first (UART order, the order the reflected CRC processes). "
+         "Oracle: SerialDecode errors, or returns identical seq/subject/payload; anything else is a violation. Non-trivial: "
+         ">= 2 points (round trip: and a subject of >= 15 bytes). Evaluations count error patterns; distinct counts packets.",
+    assumptions=["subjects contain no NUL (padding is NUL)", "bursts are contiguous in LSB-first bit order",
+                 "error patterns whose result decodes as a log packet are excluded and counted (known finding C17-F1)"],
+    level_text="Fault enumeration: for each generated packet the stated error classes are enumerated completely (short packets, "
+               "header-only packets) or sampled at every position (longer packets); generated round trips cover the encoding.",
+    level_note="Trusted: the enumeration of error patterns in harness/c17 (single, double, burst with both end bits set).",
+    technique="property-based testing (rapid) for packets + exhaustive enumeration of error patterns per packet",
+    design_ref="DESIGN.md section 4, C17",
+)
